@@ -1,7 +1,9 @@
 -- helper lemmas for C06: a Hoare-style logic for the allocation-counting decoders of Winter/Model/Parse.lean.
--- `Spec c k Q d`: on every well-formed byte string (all bytes < 256) the decoder `d` does not panic; what it
--- leaves unread is a suffix-length-bounded well-formed byte string; its result satisfies `Q`; and the heap bytes
--- it requests are at most `c` per byte consumed plus `k` (on failure: at most `c` per byte available plus `k`).
+-- `Spec c k kf Q d`: on every well-formed byte string (all bytes < 256) the decoder `d` does not panic; on
+-- success its result satisfies `Q`, what it leaves unread is well-formed and not longer than the input, and the
+-- heap bytes it requested are at most `c` per byte consumed plus `k` (an integer: negative `k` is credit left
+-- over from consumed bytes, which pays for allocations sequenced after it); on failure (`err`, `eof`) they are at
+-- most `c` per byte available plus `kf`.
 import Winter.Model.Parse
 import WinterProofs.Lemmas.C12Basic
 
@@ -12,6 +14,11 @@ open WinterProofs.C12L (readSlice_eq)
 def BytesOk (bs : Bytes) : Prop := ∀ b ∈ bs, b < 256
 
 theorem BytesOk.nil : BytesOk [] := by intro b hb; cases hb
+
+/-- the executable form -/
+theorem BytesOk.of_all {bs : Bytes} (h : bs.all (fun b => decide (b < 256)) = true) : BytesOk bs := by
+  intro b hb
+  exact of_decide_eq_true (List.all_eq_true.mp h b hb)
 
 theorem BytesOk.tail {b : Nat} {bs : Bytes} (h : BytesOk (b :: bs)) : BytesOk bs :=
   fun x hx => h x (List.mem_cons_of_mem _ hx)
@@ -26,16 +33,17 @@ theorem BytesOk.drop {bs : Bytes} (h : BytesOk bs) (n : Nat) : BytesOk (bs.drop 
   fun x hx => h x (List.mem_of_mem_drop hx)
 
 /-- what `Spec` says about one run -/
-def Post (c k : Nat) (Q : α → Prop) (bs : Bytes) (a : Nat) : Res (α × Bytes) × Nat → Prop
+def Post (c : Nat) (k : Int) (kf : Nat) (Q : α → Prop) (bs : Bytes) (a : Nat) : Res (α × Bytes) × Nat → Prop
   | (.ok (x, rest), a') =>
-    Q x ∧ BytesOk rest ∧ rest.length ≤ bs.length ∧ a' + c * rest.length ≤ a + c * bs.length + k
+    Q x ∧ BytesOk rest ∧ rest.length ≤ bs.length ∧
+      ((a' + c * rest.length : Nat) : Int) ≤ ((a + c * bs.length : Nat) : Int) + k
   | (.panic, _) => False
-  | (.err, a') => a' ≤ a + c * bs.length + k
-  | (.eof, a') => a' ≤ a + c * bs.length + k
+  | (.err, a') => a' ≤ a + c * bs.length + kf
+  | (.eof, a') => a' ≤ a + c * bs.length + kf
 
 /-- the specification of a decoder (see the head of the file) -/
-def Spec (c k : Nat) (Q : α → Prop) (d : PDec α) : Prop :=
-  ∀ bs a, BytesOk bs → Post c k Q bs a (d bs a)
+def Spec (c : Nat) (k : Int) (kf : Nat) (Q : α → Prop) (d : PDec α) : Prop :=
+  ∀ bs a, BytesOk bs → Post c k kf Q bs a (d bs a)
 
 @[simp] theorem pbind_apply (d : PDec α) (f : α → PDec β) (bs : Bytes) (a : Nat) :
     (d >>= f) bs a = match d bs a with
@@ -46,13 +54,13 @@ def Spec (c k : Nat) (Q : α → Prop) (d : PDec α) : Prop :=
 
 @[simp] theorem ppure_apply (x : α) (bs : Bytes) (a : Nat) : (pure x : PDec α) bs a = (.ok (x, bs), a) := rfl
 
-theorem spec_pure {c : Nat} {Q : α → Prop} {x : α} (h : Q x) : Spec c 0 Q (pure x : PDec α) := by
+theorem spec_pure {c : Nat} {Q : α → Prop} {x : α} (h : Q x) : Spec c 0 0 Q (pure x : PDec α) := by
   intro bs a hb
   simp only [ppure_apply, Post]
-  exact ⟨h, hb, Nat.le_refl _, Nat.le_refl _⟩
+  exact ⟨h, hb, Nat.le_refl _, by omega⟩
 
-theorem spec_weaken {c k k' : Nat} {Q Q' : α → Prop} {d : PDec α} (h : Spec c k Q d) (hk : k ≤ k')
-    (hq : ∀ x, Q x → Q' x) : Spec c k' Q' d := by
+theorem spec_weaken {c : Nat} {k k' : Int} {kf kf' : Nat} {Q Q' : α → Prop} {d : PDec α}
+    (h : Spec c k kf Q d) (hk : k ≤ k') (hkf : kf ≤ kf') (hq : ∀ x, Q x → Q' x) : Spec c k' kf' Q' d := by
   intro bs a hb
   have := h bs a hb
   generalize d bs a = r at this ⊢
@@ -61,8 +69,11 @@ theorem spec_weaken {c k k' : Nat} {Q Q' : α → Prop} {d : PDec α} (h : Spec 
   · omega
   · omega
 
-theorem spec_bind {c k1 k2 : Nat} {Q1 : α → Prop} {Q2 : β → Prop} {d : PDec α} {f : α → PDec β}
-    (h1 : Spec c k1 Q1 d) (h2 : ∀ x, Q1 x → Spec c k2 Q2 (f x)) : Spec c (k1 + k2) Q2 (d >>= f) := by
+/-- sequencing: the success constants add up; a failure of the continuation comes after the success of the
+    first decoder -/
+theorem spec_bind {c : Nat} {k1 k2 : Int} {kf1 kf2 kf : Nat} {Q1 : α → Prop} {Q2 : β → Prop} {d : PDec α}
+    {f : α → PDec β} (h1 : Spec c k1 kf1 Q1 d) (h2 : ∀ x, Q1 x → Spec c k2 kf2 Q2 (f x)) (hf1 : kf1 ≤ kf)
+    (hf2 : k1 + kf2 ≤ kf) : Spec c (k1 + k2) kf Q2 (d >>= f) := by
   intro bs a hb
   have hd := h1 bs a hb
   simp only [pbind_apply]
@@ -78,6 +89,29 @@ theorem spec_bind {c k1 k2 : Nat} {Q1 : α → Prop} {Q2 : β → Prop} {d : PDe
     · omega
   · omega
   · omega
+
+theorem spec_bindk {c : Nat} {k k1 k2 : Int} {kf kf1 kf2 : Nat} {Q1 : α → Prop} {Q2 : β → Prop} {d : PDec α}
+    {f : α → PDec β} (h1 : Spec c k1 kf1 Q1 d) (h2 : ∀ x, Q1 x → Spec c k2 kf2 Q2 (f x)) (hk : k1 + k2 ≤ k)
+    (hf1 : kf1 ≤ kf) (hf2 : k1 + kf2 ≤ kf) : Spec c k kf Q2 (d >>= f) :=
+  spec_weaken (spec_bind h1 h2 hf1 hf2) hk (Nat.le_refl _) (fun _ h => h)
+
+/-- sequencing after a decoder that requests nothing beyond what its bytes pay -/
+theorem spec_bind0 {c : Nat} {k k1 : Int} {kf : Nat} {Q1 : α → Prop} {Q2 : β → Prop} {d : PDec α}
+    {f : α → PDec β} (h1 : Spec c k1 0 Q1 d) (hk1 : k1 ≤ 0) (h2 : ∀ x, Q1 x → Spec c k kf Q2 (f x)) :
+    Spec c k kf Q2 (d >>= f) :=
+  spec_bindk h1 h2 (by omega) (Nat.zero_le _) (by omega)
+
+/-- sequencing after a decoder whose requests are exactly paid by its bytes -/
+theorem spec_seq {c : Nat} {k : Int} {kf : Nat} {Q1 : α → Prop} {Q2 : β → Prop} {d : PDec α}
+    {f : α → PDec β} (h1 : Spec c 0 0 Q1 d) (h2 : ∀ x, Q1 x → Spec c k kf Q2 (f x)) :
+    Spec c k kf Q2 (d >>= f) :=
+  spec_bind0 h1 (Int.le_refl 0) h2
+
+theorem spec_ite {c : Nat} {k : Int} {kf : Nat} {Q : α → Prop} {p : Prop} [Decidable p] {t e : PDec α}
+    (ht : p → Spec c k kf Q t) (he : ¬ p → Spec c k kf Q e) : Spec c k kf Q (if p then t else e) := by
+  by_cases h : p
+  · simp only [h, if_true]; exact ht h
+  · simp only [h, if_false]; exact he h
 
 -- ------------------------------------------------------------------------------------------------
 -- ByteReader primitives (no allocation): what they return, and how many bytes they consume at least
@@ -211,29 +245,28 @@ theorem dspec_readMany {m : Nat} {Q : α → Prop} {d : Dec α} (h : DSpec m Q d
       dspec_pure (Q := fun _ => True) trivial))) ?_ (fun _ h => h)
     rw [Nat.succ_mul]; omega
 
+theorem dspec_dDigest (A : Air) : DSpec A.digestBytes (fun _ => True) (dDigest A) := by
+  unfold dDigest
+  exact dspec_weaken (dspec_bind (dspec_readSlice A.digestBytes) (fun _ _ =>
+    dspec_pure (Q := fun _ : Unit => True) trivial)) (by omega) (fun _ h => h)
+
+theorem dspec_dElem (A : Air) (deg : Nat) : DSpec (elemSize A deg) (fun _ => True) (dElem A deg) := by
+  unfold dElem elemSize
+  refine dspec_weaken (dspec_bind (dspec_readMany (dspec_elem A.F) deg) (fun _ _ =>
+    dspec_pure (Q := fun _ : Unit => True) trivial)) ?_ (fun _ h => h)
+  rw [Nat.mul_comm]; omega
+
 -- ------------------------------------------------------------------------------------------------
 -- lifting, allocation, failure
 
-theorem spec_lift {c m : Nat} {Q : α → Prop} {d : Dec α} (h : DSpec m Q d) : Spec c 0 Q (lift d) := by
+/-- a primitive that consumes at least `m` bytes leaves `c * m` bytes of credit -/
+theorem spec_lift {c m : Nat} {Q : α → Prop} {d : Dec α} (h : DSpec m Q d) :
+    Spec c (-((c * m : Nat) : Int)) 0 Q (lift d) := by
   intro bs a hb
   have hd := h bs hb
   unfold lift
   generalize d bs = r at hd ⊢
   rcases r with ⟨x, rest⟩ | _ | _ | _ <;> simp only [DPost] at hd <;> simp only [Post]
-  · obtain ⟨q, ok, len⟩ := hd
-    have : c * rest.length ≤ c * bs.length := Nat.mul_le_mul_left c (by omega)
-    exact ⟨q, ok, by omega, by omega⟩
-  · omega
-  · omega
-
-/-- a primitive that consumes at least `m` bytes pays for `g ≤ c * m` bytes of allocation -/
-theorem spec_lift_pay {c m g : Nat} {Q : α → Prop} {d : Dec α} (h : DSpec m Q d) (hg : g ≤ c * m) :
-    Spec c 0 Q (do let x ← lift d; alloc g; pure x) := by
-  intro bs a hb
-  have hd := h bs hb
-  simp only [pbind_apply, lift]
-  generalize d bs = r at hd ⊢
-  rcases r with ⟨x, rest⟩ | _ | _ | _ <;> simp only [DPost] at hd <;> simp only [Post, alloc, ppure_apply]
   · obtain ⟨q, ok, len⟩ := hd
     have : c * (rest.length + m) ≤ c * bs.length := Nat.mul_le_mul_left c len
     rw [Nat.mul_add] at this
@@ -241,56 +274,133 @@ theorem spec_lift_pay {c m g : Nat} {Q : α → Prop} {d : Dec α} (h : DSpec m 
   · omega
   · omega
 
-theorem spec_alloc {c : Nat} (n : Nat) : Spec c n (fun _ => True) (alloc n) := by
+theorem spec_lift0 {c m : Nat} {Q : α → Prop} {d : Dec α} (h : DSpec m Q d) : Spec c 0 0 Q (lift d) :=
+  spec_weaken (spec_lift h) (by omega) (Nat.le_refl _) (fun _ h => h)
+
+theorem spec_alloc {c : Nat} (n : Nat) : Spec c n 0 (fun _ => True) (alloc n) := by
   intro bs a hb
   simp only [alloc, Post]
   exact ⟨trivial, hb, Nat.le_refl _, by omega⟩
 
-theorem spec_fail {c k : Nat} {Q : α → Prop} : Spec c k Q (pfail : PDec α) := by
+theorem spec_fail {c : Nat} {k : Int} {kf : Nat} {Q : α → Prop} : Spec c k kf Q (pfail : PDec α) := by
   intro bs a _
   simp only [pfail, Post]; omega
 
-theorem spec_pEnd {c : Nat} : Spec c 0 (fun _ => True) pEnd := by
+theorem spec_pEnd {c : Nat} : Spec c 0 0 (fun _ => True) pEnd := by
   intro bs a hb
   unfold pEnd
   by_cases h : bs.isEmpty
-  · simp only [h, if_true, Post]; exact ⟨trivial, hb, Nat.le_refl _, Nat.le_refl _⟩
+  · simp only [h, if_true, Post]; exact ⟨trivial, hb, Nat.le_refl _, by omega⟩
   · simp only [h, Post]; simp
 
-theorem spec_u8 {c : Nat} : Spec c 0 (fun x => x < 256) u8 := spec_lift dspec_readU8
+theorem spec_u8 {c : Nat} : Spec c 0 0 (fun x => x < 256) u8 := spec_lift0 dspec_readU8
+
+/-- `growing g d`: the growth is added to the success constant -/
+theorem spec_growing {c : Nat} {k : Int} {kf g : Nat} {Q : α → Prop} {d : PDec α} (h : Spec c k kf Q d) :
+    Spec c (k + g) kf Q (growing g d) := by
+  intro bs a hb
+  have hd := h bs a hb
+  unfold growing
+  simp only [pbind_apply]
+  generalize d bs a = r at hd ⊢
+  rcases r with ⟨⟨x, rest⟩ | _ | _ | _, a'⟩ <;> simp only [Post] at hd <;> simp only [Post, alloc, ppure_apply]
+  · obtain ⟨q, ok, len, al⟩ := hd
+    exact ⟨q, ok, len, by omega⟩
+  · omega
+  · omega
 
 /-- `read_vec(n)`: the `n` bytes requested are paid by the `n` bytes consumed -/
 theorem spec_readVec {c : Nat} (hc : 1 ≤ c) (n : Nat) :
-    Spec c 0 (fun s => s.length = n ∧ BytesOk s) (readVec n) := by
-  have := spec_lift_pay (c := c) (g := n) (dspec_readSlice n) (by
+    Spec c 0 0 (fun s => s.length = n ∧ BytesOk s) (readVec n) := by
+  have h1 : n ≤ c * n := by
     calc n = 1 * n := by omega
-      _ ≤ c * n := Nat.mul_le_mul_right n hc)
-  exact this
+      _ ≤ c * n := Nat.mul_le_mul_right n hc
+  have := spec_growing (g := n) (spec_lift (c := c) (dspec_readSlice n))
+  exact spec_weaken this (by omega) (Nat.le_refl 0) (fun _ h => h)
 
 theorem spec_pBlock {c : Nat} (hc : 1 ≤ c) (k : Nat) :
-    Spec c 0 (fun s => s.length < 256 ^ k ∧ BytesOk s) (pBlock k) := by
+    Spec c 0 0 (fun s => s.length < 256 ^ k ∧ BytesOk s) (pBlock k) := by
   unfold pBlock
-  have := spec_bind (c := c) (spec_lift (dspec_readUInt k)) (fun n (hn : n < 256 ^ k) =>
-    spec_weaken (spec_readVec hc n) (Nat.le_refl 0) (fun s hs => (⟨by rw [hs.1]; exact hn, hs.2⟩ :
+  exact spec_bind0 (spec_lift0 (dspec_readUInt k)) (Int.le_refl 0) (fun n (hn : n < 256 ^ k) =>
+    spec_weaken (spec_readVec hc n) (Int.le_refl 0) (Nat.le_refl 0) (fun s hs => (⟨by rw [hs.1]; exact hn, hs.2⟩ :
       s.length < 256 ^ k ∧ BytesOk s)))
-  simpa using this
 
-/-- `loopMany`: elements that pay for themselves -/
-theorem spec_loopMany {c : Nat} {Q : α → Prop} {d : PDec α} (h : Spec c 0 Q d) (n : Nat) :
-    Spec c 0 (fun xs => xs.length = n ∧ ∀ x ∈ xs, Q x) (loopMany d n) := by
+/-- `loopMany`: every element leaves the credit `-k ≥ 0`; a failure ends the loop -/
+theorem spec_loopMany {c : Nat} {k : Int} {kf : Nat} {Q : α → Prop} {d : PDec α} (h : Spec c k kf Q d)
+    (hk : k ≤ 0) (n : Nat) :
+    Spec c (n * k) kf (fun xs => xs.length = n ∧ ∀ x ∈ xs, Q x) (loopMany d n) := by
   induction n with
   | zero =>
     unfold loopMany
-    exact spec_pure ⟨rfl, by intro x hx; cases hx⟩
+    exact spec_weaken (spec_pure ⟨rfl, by intro x hx; cases hx⟩) (by omega) (Nat.zero_le _) (fun _ h => h)
   | succ n ih =>
     unfold loopMany
-    have := spec_bind h (fun x (hx : Q x) => spec_bind ih (fun xs hxs =>
+    have hnk : ((n : Nat) : Int) * k ≤ 0 := Int.mul_nonpos_of_nonneg_of_nonpos (by omega) hk
+    refine spec_bindk h (fun x (hx : Q x) => spec_bindk ih (fun xs hxs =>
       spec_pure (c := c) (Q := fun ys => ys.length = n + 1 ∧ ∀ y ∈ ys, Q y) (x := x :: xs)
         ⟨by simp [hxs.1], by
           intro y hy
           rcases List.mem_cons.mp hy with rfl | hy
           · exact hx
-          · exact hxs.2 y hy⟩))
-    simpa using this
+          · exact hxs.2 y hy⟩) (Int.le_refl _) (Nat.le_refl kf) (by omega)) ?_
+      (Nat.le_refl kf) (by omega)
+    have : ((n + 1 : Nat) : Int) * k = n * k + k := by
+      rw [Int.natCast_add, Int.add_mul]; simp
+    omega
+
+theorem prealloc_le (size n : Nat) : preallocCount size n * size ≤ MAX_PREALLOC := by
+  unfold preallocCount
+  by_cases hs : size = 0
+  · subst hs; simp
+  · have h1 : max size 1 = size := by omega
+    rw [h1]
+    calc min n (MAX_PREALLOC / size) * size ≤ (MAX_PREALLOC / size) * size :=
+          Nat.mul_le_mul_right _ (Nat.min_le_right _ _)
+      _ ≤ MAX_PREALLOC := Nat.div_mul_le_self _ _
+
+theorem prealloc_le_n (size n : Nat) : preallocCount size n * size ≤ n * size :=
+  Nat.mul_le_mul_right _ (Nat.min_le_left _ _)
+
+/-- `read_many` of any elements that pay for themselves: the bounded pre-allocation (and nothing else) is not
+    covered by consumed bytes; `hg`: when more elements are requested than are pre-allocated, the elements also
+    pay for the growth of the vector -/
+theorem spec_readManyA {c : Nat} {k : Int} {kf : Nat} {Q : α → Prop} {d : PDec α} (size n : Nat)
+    (h : Spec c k kf Q d) (hk : k ≤ 0) (hg : ¬ n ≤ MAX_PREALLOC / max size 1 → k + (2 * size : Nat) ≤ 0) :
+    Spec c MAX_PREALLOC (MAX_PREALLOC + kf) (fun xs => xs.length = n ∧ ∀ x ∈ xs, Q x) (readManyA size d n) := by
+  unfold readManyA
+  have hp := prealloc_le size n
+  by_cases hn : n ≤ MAX_PREALLOC / max size 1
+  · simp only [hn, if_true]
+    have hl := spec_loopMany (spec_growing (g := 0) h) (by simpa using hk) n
+    have hnk : ((n : Nat) : Int) * (k + (0 : Nat)) ≤ 0 := Int.mul_nonpos_of_nonneg_of_nonpos (by omega) (by simpa using hk)
+    exact spec_bindk (spec_alloc _) (fun _ _ => hl) (by omega) (Nat.zero_le _) (by omega)
+  · simp only [hn, if_false]
+    have hl := spec_loopMany (spec_growing (g := 2 * size) h) (hg hn) n
+    have hnk : ((n : Nat) : Int) * (k + (2 * size : Nat)) ≤ 0 := Int.mul_nonpos_of_nonneg_of_nonpos (by omega) (hg hn)
+    exact spec_bindk (spec_alloc _) (fun _ _ => hl) (by omega) (Nat.zero_le _) (by omega)
+
+/-- `read_many` of primitive elements of `size` bytes that consume at least `m` input bytes each with
+    `3 * size ≤ c * m`: the pre-allocation and the growth are paid by the consumed bytes on success; on failure the
+    pre-allocation is the only excess -/
+theorem spec_readManyA_lift {c m : Nat} {Q : α → Prop} {d : Dec α} (size n : Nat) (h : DSpec m Q d)
+    (hs : 3 * size ≤ c * m) :
+    Spec c 0 MAX_PREALLOC (fun xs => xs.length = n) (readManyA size (lift d) n) := by
+  unfold readManyA
+  have hp := prealloc_le size n
+  have hpn := prealloc_le_n size n
+  -- every element leaves at least `size` bytes of credit
+  have hel : ∀ g : Nat, g ≤ 2 * size → Spec c (-(size : Int)) 0 Q (growing g (lift d)) := fun g hg =>
+    spec_weaken (spec_growing (g := g) (spec_lift (c := c) h)) (by omega) (Nat.le_refl 0) (fun _ h => h)
+  have hloop : Spec c (n * (-(size : Int))) 0 (fun xs => xs.length = n ∧ ∀ x ∈ xs, Q x)
+      (loopMany (growing (if n ≤ MAX_PREALLOC / max size 1 then 0 else 2 * size) (lift d)) n) := by
+    apply spec_loopMany _ (by omega) n
+    by_cases hn : n ≤ MAX_PREALLOC / max size 1
+    · simp only [hn, if_true]; exact hel 0 (by omega)
+    · simp only [hn, if_false]; exact hel _ (Nat.le_refl _)
+  have hns : ((n : Nat) : Int) * (-(size : Int)) = -((n * size : Nat) : Int) := by
+    rw [Int.mul_neg, Int.natCast_mul]
+  refine spec_bindk (spec_alloc _) (fun _ _ => spec_weaken hloop (Int.le_refl _) (Nat.le_refl 0) (fun xs hx => hx.1))
+    ?_ (Nat.zero_le _) (by omega)
+  rw [hns]; omega
 
 end WinterProofs.C06L
